@@ -13,7 +13,7 @@ import (
 	"verif/harness/sm"
 )
 
-const ruleC03 = "collections constructed from drawn parameters: N in {0,1,2,39,40,41,200,600} (thorough: up to 5000) documents inserted in 1-3 batches, pad strings of 0-1500 bytes so that N spans one to ~150 bbolt leaf pages and the document/index key boundary falls at varying offsets, x = (a*i+b) mod m (optionally cycling int/float/string), index sets over {x, u, y, pad}, bbolt and badger (in memory; on disk in the thorough tier). One bulk operation per case: Update (map), UpdateFunc (copying, in-place, x += k on the filtered/sorted field, nil = delete), Delete, DropCollection (+ re-create), with criteria on the rewritten field, sort on unique keys, skip/limit. Oracle (reference model): the update function runs exactly once per document that FindAll selected immediately before, each time on the pre-call value; afterwards every selected document is f(old) or gone and every other document is unchanged; followed by a complete raw key audit and a full comparison of the collection. An evaluation is one bulk operation; non-trivial when 0 < matched < N and (N >= 100 or an index exists); distinct = distinct cases. A second part races bulk Update/UpdateFunc/Delete with point writes on one handle (schedule perturbed at every store call): the recorded history with a sequential epilogue must be linearizable, i.e. every bulk operation touched exactly what FindAll returned at its linearization point."
+const ruleC03 = "collections constructed from drawn parameters: N in {0,1,2,39,40,41,200,600} (thorough: up to 5000) documents inserted in 1-3 batches, pad strings of 0-1500 bytes so that N spans one to ~150 bbolt leaf pages and the document/index key boundary falls at varying offsets, x = (a*i+b) mod m (optionally cycling int/float/string), index sets over {x, u, y, pad}, bbolt and badger (in memory; on disk in the thorough tier). One bulk operation per case: Update (map), UpdateFunc (copying, in-place, x += k on the filtered/sorted field, nested paths, nil = delete, an update that turns one late document invalid so that the whole operation must fail), Delete, DropCollection (+ re-create), with criteria on the rewritten field, sort on unique keys, skip/limit. Oracle (reference model): the update function runs exactly once per document that FindAll selected immediately before, each time on the pre-call value; afterwards every selected document is f(old) or gone and every other document is unchanged; followed by a complete raw key audit and a full comparison of the collection. An evaluation is one bulk operation; non-trivial when 0 < matched < N and (N >= 100 or an index exists); distinct = distinct cases. A second part races bulk Update/UpdateFunc/Delete with point writes on one handle (schedule perturbed at every store call): the recorded history with a sequential epilogue must be linearizable, i.e. every bulk operation touched exactly what FindAll returned at its linearization point."
 
 func c03Session(backend string) (*sm.Session, error) {
 	s, err := sm.NewSession("C03", "c03", backend)
@@ -75,6 +75,12 @@ func testC03Cases(t *testing.T) {
 		if n >= 1000 && pad > 400 {
 			pad = 400
 		}
+		if backend == run.BadgerMem && rapid.IntRange(0, 4).Draw(rt, "oversized") == 0 {
+			// the collection fits (it is inserted in batches), but a bulk operation over all of it
+			// exceeds the store's transaction budget: it must be refused as a whole
+			n, pad = 1200, 1500
+		}
+
 		mod := rapid.SampledFrom([]int{1, 2, 5, 17, 100, 100000}).Draw(rt, "mod")
 		gspec := cs.GenSpec{N: n, Pad: pad, Mul: rapid.SampledFrom([]int{1, 3, 7}).Draw(rt, "mul"), Add: rapid.IntRange(0, 5).Draw(rt, "add"), Mod: mod}
 		if rapid.IntRange(0, 3).Draw(rt, "mixedtypes") == 0 {
@@ -84,7 +90,7 @@ func testC03Cases(t *testing.T) {
 			gspec.Sparse = rapid.SampledFrom([]int{2, 3, 7}).Draw(rt, "sparse-every") // some documents lack x and y
 		}
 		ixs := []string{}
-		for _, f := range []string{"x", "u", "y", "pad"} {
+		for _, f := range []string{"x", "u", "y", "pad", "n", "n.a"} {
 			if rapid.IntRange(0, 2).Draw(rt, "ix-"+f) == 0 {
 				ixs = append(ixs, f)
 			}
@@ -102,6 +108,9 @@ func testC03Cases(t *testing.T) {
 		}
 		// 1-3 batches
 		nb := rapid.IntRange(1, 3).Draw(rt, "batches")
+		if n == 1200 && pad == 1500 {
+			nb = 4
+		}
 		first := 0
 		for b := 0; b < nb; b++ {
 			cnt := (n - first) / (nb - b)
@@ -169,15 +178,22 @@ func testC03Cases(t *testing.T) {
 		updKind := ""
 		switch kind {
 		case "update":
-			op.UpdMap = map[string]cs.V{rapid.SampledFrom([]string{"x", "y", "z"}).Draw(rt, "updfield"): {X: int64(rapid.IntRange(-1, mod).Draw(rt, "updval"))}}
+			op.UpdMap = map[string]cs.V{rapid.SampledFrom([]string{"x", "y", "z", "n.a", "n.a", "n.c"}).Draw(rt, "updfield"): {X: int64(rapid.IntRange(-1, mod).Draw(rt, "updval"))}}
 		case "updatefunc":
-			updKind = rapid.SampledFrom([]string{"incr", "incr", "set", "inplace", "delete", "ident"}).Draw(rt, "updkind")
-			op.Upd = &cs.Updater{Kind: updKind, Field: rapid.SampledFrom([]string{"x", "x", "y", "u"}).Draw(rt, "updfield")}
+			updKind = rapid.SampledFrom([]string{"incr", "incr", "set", "inplace", "delete", "ident", "poison"}).Draw(rt, "updkind")
+			op.Upd = &cs.Updater{Kind: updKind, Field: rapid.SampledFrom([]string{"x", "x", "y", "u", "n.a"}).Draw(rt, "updfield")}
 			switch updKind {
 			case "incr":
 				op.Upd.N = int64(rapid.SampledFrom([]int{1, n, mod, -1}).Draw(rt, "incr"))
 			case "set", "inplace":
 				op.Upd.Value = cs.V{X: int64(rapid.IntRange(-1, mod).Draw(rt, "setval"))}
+			case "poison":
+				// the offending document is one of the last the operation reaches
+				op.Upd.Value = cs.V{X: int64(rapid.IntRange(-1, mod).Draw(rt, "setval"))}
+				op.Upd.N = int64(rapid.SampledFrom([]int{n - 1, n - 2, n / 2, 0}).Draw(rt, "poison-at"))
+			}
+			if (op.Upd.Field == "u" || op.Upd.Field == "n.a") && updKind == "incr" && op.Upd.Field == "n.a" {
+				op.Upd.Field = "x"
 			}
 			if op.Upd.Field == "u" && updKind != "incr" {
 				op.Upd.Field = "x"
@@ -185,6 +201,12 @@ func testC03Cases(t *testing.T) {
 		case "dropcoll":
 			op = cs.Op{Kind: "dropcoll", Coll: "A"}
 			matched = n
+		}
+		if n == 1200 && pad == 1500 && rapid.Bool().Draw(rt, "oversized-late-failure") {
+			// over the whole oversized collection, with the offending document near the end: whether
+			// the store refuses the transaction or the late document fails it, nothing may change
+			op = cs.Op{Kind: "updatefunc", Q: &cs.Query{Coll: "A"}, Upd: &cs.Updater{Kind: "poison", Field: "x", Value: cs.V{X: int64(-5)}, N: int64(n - 1 - rapid.IntRange(0, 40).Draw(rt, "late"))}}
+			kind, updKind = "updatefunc", "poison"
 		}
 		do(op)
 		if len(ixs) > 0 && rapid.IntRange(0, 3).Draw(rt, "dropindex") == 0 {
